@@ -42,7 +42,8 @@ def flowErrs (st : State) (x : Sym) (ph : Phase) : List Nat :=
   (execTargets st x ph).filterMap (respOf st)
 
 /-- The event of one lifecycle flow. -/
-def flowEv (st : State) (x : Sym) (ph : Phase) : Event := .exec ph x.id (execTargets st x ph)
+def flowEv (st : State) (x : Sym) (ph : Phase) : Event :=
+  .exec ph x.id ((execTargets st x ph).filter (seen st))
 
 /-- The events of one complete activation: init flow, load hooks, begin flow. -/
 def actBlock (st : State) (x : Sym) : List Event :=
@@ -64,6 +65,79 @@ theorem flowEv_log (st : State) (lg : List Event) (x : Sym) (ph : Phase) :
 theorem flowErrs_log (st : State) (lg : List Event) (x : Sym) (ph : Phase) :
     flowErrs { st with log := lg } x ph = flowErrs st x ph := rfl
 
+/-- `true` for the phases of a deactivation. -/
+def isUnl : Phase → Bool
+  | .term => true
+  | .final => true
+  | _ => false
+
+/-- How the (de)activation of `x` ends when it fails with the errors `es`: at the first flow; at a
+refusing hook that runs before the observing hooks (nothing was recorded); at a refusing hook that
+runs after them (the notification `mid` was recorded); at the second flow.  Nothing follows. -/
+def AbortTail (st : State) (x : Sym) (p1 p2 : Phase) (mid : Nat → Event) (tail : List Event)
+    (es : List Nat) : Prop :=
+  (tail = [flowEv st x p1] ∧ flowErrs st x p1 = es ∧ es ≠ []) ∨
+  (∃ r ∈ st.refusals, r.unload = isUnl p1 ∧ r.after = false ∧ r.sym = x.id ∧ es = [r.code] ∧
+      tail = [flowEv st x p1, .refused (isUnl p1) false x.id] ∧ flowErrs st x p1 = []) ∨
+  (∃ r ∈ st.refusals, r.unload = isUnl p1 ∧ r.after = true ∧ r.sym = x.id ∧ es = [r.code] ∧
+      tail = [flowEv st x p1, mid x.id, .refused (isUnl p1) true x.id] ∧ flowErrs st x p1 = []) ∨
+  (tail = [flowEv st x p1, mid x.id, flowEv st x p2] ∧ flowErrs st x p1 = [] ∧
+      flowErrs st x p2 = es ∧ es ≠ [])
+
+theorem abortTail_log (st : State) (lg : List Event) (x : Sym) (p1 p2 : Phase) (mid : Nat → Event)
+    (tail : List Event) (es : List Nat) :
+    AbortTail { st with log := lg } x p1 p2 mid tail es ↔ AbortTail st x p1 p2 mid tail es := Iff.rfl
+
+theorem refusalOf_some {st : State} {u a : Bool} {id c : Nat} (h : refusalOf st u a id = some c) :
+    ∃ r ∈ st.refusals, r.unload = u ∧ r.after = a ∧ r.sym = id ∧ r.code = c := by
+  unfold refusalOf at h
+  cases hf : st.refusals.find? (fun r => r.unload == u && r.after == a && r.sym == id &&
+      (!r.once || !(st.log.contains (.refused u a id)))) with
+  | none => rw [hf] at h; cases h
+  | some r =>
+    rw [hf] at h
+    simp only [Option.some.injEq] at h
+    have hm := List.mem_of_find?_eq_some hf
+    have hp := List.find?_some hf
+    simp only [Bool.and_eq_true, beq_iff_eq] at hp
+    exact ⟨r, hm, hp.1.1.1, hp.1.1.2, hp.1.2, h⟩
+
+/-- One (de)activation: only the log grows; nil ⇒ exactly the complete block was appended and both
+flows succeeded; an error ⇒ an `AbortTail`; never `panic`. -/
+theorem notify_spec (st : State) (x : Sym) (p1 p2 : Phase) (mid : Nat → Event) :
+    ∃ evs, (notify st x (isUnl p1) p1 p2 mid).1 = { st with log := st.log ++ evs } ∧
+      (((notify st x (isUnl p1) p1 p2 mid).2 = .ok ∧ evs = [flowEv st x p1, mid x.id, flowEv st x p2] ∧
+          flowErrs st x p1 = [] ∧ flowErrs st x p2 = []) ∨
+       (∃ es, (notify st x (isUnl p1) p1 p2 mid).2 = .err es ∧ AbortTail st x p1 p2 mid evs es)) := by
+  unfold notify
+  simp only [exec_eq]
+  by_cases h1 : flowErrs st x p1 = []
+  · simp only [h1, if_true]
+    unfold hookRun
+    cases hr1 : refusalOf { st with log := st.log ++ [flowEv st x p1] } (isUnl p1) false x.id with
+    | some c =>
+      obtain ⟨r, hm, e1, e2, e3, e4⟩ := refusalOf_some hr1
+      refine ⟨[flowEv st x p1, .refused (isUnl p1) false x.id], by simp, Or.inr ⟨[c], rfl, ?_⟩⟩
+      exact Or.inr (Or.inl ⟨r, hm, e1, e2, e3, by rw [e4], rfl, h1⟩)
+    | none =>
+      simp only
+      cases hr2 : refusalOf { st with log := st.log ++ [flowEv st x p1] ++ [mid x.id] } (isUnl p1) true x.id with
+      | some c =>
+        obtain ⟨r, hm, e1, e2, e3, e4⟩ := refusalOf_some hr2
+        refine ⟨[flowEv st x p1, mid x.id, .refused (isUnl p1) true x.id], by simp, Or.inr ⟨[c], rfl, ?_⟩⟩
+        exact Or.inr (Or.inr (Or.inl ⟨r, hm, e1, e2, e3, by rw [e4], rfl, h1⟩))
+      | none =>
+        simp only [exec_eq, flowErrs_log, flowEv_log]
+        by_cases h2 : flowErrs st x p2 = []
+        · simp only [h2, if_true]
+          refine ⟨[flowEv st x p1, mid x.id, flowEv st x p2], by simp, Or.inl ?_⟩
+          simp [h1, h2]
+        · simp only [h2, if_false]
+          exact ⟨[flowEv st x p1, mid x.id, flowEv st x p2], by simp,
+            Or.inr ⟨_, rfl, Or.inr (Or.inr (Or.inr ⟨rfl, h1, rfl, h2⟩))⟩⟩
+  · simp only [h1, if_false]
+    exact ⟨[flowEv st x p1], rfl, Or.inr ⟨_, rfl, Or.inl ⟨rfl, rfl, h1⟩⟩⟩
+
 /-- What one pass of `load` / `unload` over a list of symbols does to the log, and what it returns.
 `mid` is the hook event, `p1`/`p2` the flows before and after it. -/
 structure PassSpec (o : Ord) (st : State) (p1 p2 : Phase) (mid : Nat → Event) (l : List Sym)
@@ -77,11 +151,19 @@ structure PassSpec (o : Ord) (st : State) (p1 p2 : Phase) (mid : Nat → Event) 
   good : ∀ x ∈ done, isActivated o st x = some true ∧ flowErrs st x p1 = [] ∧ flowErrs st x p2 = []
   /-- nil error: every activated symbol of the list got its complete block, nothing else -/
   ok : res.2 = .ok → tail = [] ∧ done = l.filter (fun x => isActivated o st x = some true)
-  /-- an error: it is the answer of the last flow run, and nothing was run after that flow -/
+  /-- an error: it is the error of the last flow or hook run for an activated symbol of the list,
+  and nothing was run after it (`AbortTail`) -/
   err : ∀ es, res.2 = .err es → es ≠ [] ∧ ∃ x ∈ l, isActivated o st x = some true ∧
-      ((tail = [flowEv st x p1] ∧ flowErrs st x p1 = es) ∨
-       (tail = [flowEv st x p1, mid x.id, flowEv st x p2] ∧ flowErrs st x p1 = [] ∧ flowErrs st x p2 = es))
+      AbortTail st x p1 p2 mid tail es
   panic : res.2 = .panic → tail = []
+
+theorem abortTail_ne_nil {st : State} {x : Sym} {p1 p2 : Phase} {mid : Nat → Event} {tail : List Event}
+    {es : List Nat} (h : AbortTail st x p1 p2 mid tail es) : es ≠ [] := by
+  rcases h with ⟨_, _, h⟩ | ⟨r, _, _, _, _, e, _⟩ | ⟨r, _, _, _, _, e, _⟩ | ⟨_, _, _, h⟩
+  · exact h
+  · rw [e]; simp
+  · rw [e]; simp
+  · exact h
 
 end Uniflow.Table
 
@@ -114,15 +196,18 @@ theorem Uniflow.Table.loadLoop_spec (o : Ord) (st : State) (l : List Sym) :
                    exact ⟨h1, y, List.mem_cons_of_mem _ hy, h2⟩,
                  panic := s.panic }⟩
       | true =>
-        simp only [exec_eq]
-        by_cases h1 : flowErrs st x .init = []
-        · simp only [h1, if_true]
-          simp only [flowErrs_log, flowEv_log]
-          by_cases h2 : flowErrs st x .begin = []
-          · -- both flows succeed: continue with the rest on the longer log
-            simp only [h2, if_true]
-            obtain ⟨s⟩ := ih { st with log := st.log ++ [flowEv st x .init] ++ [Event.load x.id] ++
-              [flowEv st x .begin] }
+        simp only
+        obtain ⟨evs, hst, hres⟩ := notify_spec st x .init .begin Event.load
+        have hu : isUnl Phase.init = false := rfl
+        rw [hu] at hst hres
+        cases hn : notify st x false .init .begin Event.load with
+        | mk st1 r =>
+          rw [hn] at hst hres
+          simp only at hst hres
+          rcases hres with ⟨hok, hevs, h1, h2⟩ | ⟨es, herr, hab⟩
+          · subst hok; subst hst; subst hevs
+            simp only
+            obtain ⟨s⟩ := ih { st with log := st.log ++ [flowEv st x .init, Event.load x.id, flowEv st x .begin] }
             refine ⟨{ done := x :: s.done, tail := s.tail, state := ?_, sub := s.sub.cons_cons _, good := ?_,
                       ok := ?_, err := ?_, panic := s.panic }⟩
             · rw [s.state]; simp [flowEv_log]
@@ -139,22 +224,15 @@ theorem Uniflow.Table.loadLoop_spec (o : Ord) (st : State) (l : List Sym) :
             · intro es h
               obtain ⟨t1, y, hy, t2, t3⟩ := s.err es h
               refine ⟨t1, y, List.mem_cons_of_mem _ hy, by simpa [isActivated_log] using t2, ?_⟩
-              simpa [flowEv_log, flowErrs_log] using t3
-          · simp only [h2, if_false]
-            refine ⟨{ done := [], tail := [flowEv st x .init, .load x.id, flowEv st x .begin], state := ?_,
-                      sub := List.nil_sublist _, good := by simp, ok := by simp, err := ?_, panic := by simp }⟩
-            · simp
-            · intro es h
-              simp only [Ret.err.injEq] at h
-              subst h
-              exact ⟨h2, x, by simp, ha, Or.inr ⟨rfl, h1, rfl⟩⟩
-        · simp only [h1, if_false]
-          refine ⟨{ done := [], tail := [flowEv st x .init], state := by simp,
-                    sub := List.nil_sublist _, good := by simp, ok := by simp, err := ?_, panic := by simp }⟩
-          intro es h
-          simp only [Ret.err.injEq] at h
-          subst h
-          exact ⟨h1, x, by simp, ha, Or.inl ⟨rfl, rfl⟩⟩
+              exact (abortTail_log _ _ _ _ _ _ _ _).mp t3
+          · subst herr; subst hst
+            simp only
+            refine ⟨{ done := [], tail := evs, state := by simp, sub := List.nil_sublist _, good := by simp,
+                      ok := by simp, err := ?_, panic := by simp }⟩
+            intro es' h
+            simp only [Ret.err.injEq] at h
+            subst h
+            exact ⟨abortTail_ne_nil hab, x, by simp, ha, hab⟩
 
 /-- The same for the loop of `unload`. -/
 theorem Uniflow.Table.unloadLoop_spec (o : Ord) (st : State) (l : List Sym) :
@@ -183,15 +261,18 @@ theorem Uniflow.Table.unloadLoop_spec (o : Ord) (st : State) (l : List Sym) :
                    exact ⟨h1, y, List.mem_cons_of_mem _ hy, h2⟩,
                  panic := s.panic }⟩
       | true =>
-        simp only [exec_eq]
-        by_cases h1 : flowErrs st x .term = []
-        · simp only [h1, if_true]
-          simp only [flowErrs_log, flowEv_log]
-          by_cases h2 : flowErrs st x .final = []
-          · -- both flows succeed: continue with the rest on the longer log
-            simp only [h2, if_true]
-            obtain ⟨s⟩ := ih { st with log := st.log ++ [flowEv st x .term] ++ [Event.unload x.id] ++
-              [flowEv st x .final] }
+        simp only
+        obtain ⟨evs, hst, hres⟩ := notify_spec st x .term .final Event.unload
+        have hu : isUnl Phase.term = true := rfl
+        rw [hu] at hst hres
+        cases hn : notify st x true .term .final Event.unload with
+        | mk st1 r =>
+          rw [hn] at hst hres
+          simp only at hst hres
+          rcases hres with ⟨hok, hevs, h1, h2⟩ | ⟨es, herr, hab⟩
+          · subst hok; subst hst; subst hevs
+            simp only
+            obtain ⟨s⟩ := ih { st with log := st.log ++ [flowEv st x .term, Event.unload x.id, flowEv st x .final] }
             refine ⟨{ done := x :: s.done, tail := s.tail, state := ?_, sub := s.sub.cons_cons _, good := ?_,
                       ok := ?_, err := ?_, panic := s.panic }⟩
             · rw [s.state]; simp [flowEv_log]
@@ -208,22 +289,15 @@ theorem Uniflow.Table.unloadLoop_spec (o : Ord) (st : State) (l : List Sym) :
             · intro es h
               obtain ⟨t1, y, hy, t2, t3⟩ := s.err es h
               refine ⟨t1, y, List.mem_cons_of_mem _ hy, by simpa [isActivated_log] using t2, ?_⟩
-              simpa [flowEv_log, flowErrs_log] using t3
-          · simp only [h2, if_false]
-            refine ⟨{ done := [], tail := [flowEv st x .term, .unload x.id, flowEv st x .final], state := ?_,
-                      sub := List.nil_sublist _, good := by simp, ok := by simp, err := ?_, panic := by simp }⟩
-            · simp
-            · intro es h
-              simp only [Ret.err.injEq] at h
-              subst h
-              exact ⟨h2, x, by simp, ha, Or.inr ⟨rfl, h1, rfl⟩⟩
-        · simp only [h1, if_false]
-          refine ⟨{ done := [], tail := [flowEv st x .term], state := by simp,
-                    sub := List.nil_sublist _, good := by simp, ok := by simp, err := ?_, panic := by simp }⟩
-          intro es h
-          simp only [Ret.err.injEq] at h
-          subst h
-          exact ⟨h1, x, by simp, ha, Or.inl ⟨rfl, rfl⟩⟩
+              exact (abortTail_log _ _ _ _ _ _ _ _).mp t3
+          · subst herr; subst hst
+            simp only
+            refine ⟨{ done := [], tail := evs, state := by simp, sub := List.nil_sublist _, good := by simp,
+                      ok := by simp, err := ?_, panic := by simp }⟩
+            intro es' h
+            simp only [Ret.err.injEq] at h
+            subst h
+            exact ⟨abortTail_ne_nil hab, x, by simp, ha, hab⟩
 
 /-! ### property theorems -/
 
@@ -243,41 +317,31 @@ theorem Pass08.lifecycle_order_unload (o : Ord) (st : State) (sb : Sym) (l : Lis
     Nonempty (PassSpec o st .term .final Event.unload l.reverse (unload o st sb)) := by
   unfold unload; rw [h]; exact unloadLoop_spec o st l.reverse
 
-/-- **Error aborts (within a pass).** If `load` returns an error then that error is exactly what
-the last lifecycle flow in the log answered, that flow's targets did answer with an error, and
-the log ends with it (init flow) or with the block it closes (begin flow): no hook and no flow ran
-after the failing flow. -/
+/-- **Error aborts (within a pass).** If `load` returns an error then the log ends with the
+(de)activation of an activated symbol cut short by exactly that error (`AbortTail`): the init flow
+answered with it; or a load hook that runs before / after the observing hooks refused the symbol
+with it; or the begin flow answered with it – and no hook and no flow ran after it. -/
 theorem Pass08.error_aborts_load (o : Ord) (st : State) (sb : Sym) (es : List Nat)
     (h : (load o st sb).2 = .err es) :
-    es ≠ [] ∧ ∃ x pre, isActivated o st x = some true ∧
-      (((load o st sb).1.log = st.log ++ pre ++ [flowEv st x .init] ∧ flowErrs st x .init = es) ∨
-       ((load o st sb).1.log = st.log ++ pre ++ actBlock st x ∧ flowErrs st x .init = [] ∧
-          flowErrs st x .begin = es)) := by
+    es ≠ [] ∧ ∃ x pre tail, isActivated o st x = some true ∧
+      (load o st sb).1.log = st.log ++ pre ++ tail ∧ AbortTail st x .init .begin Event.load tail es := by
   cases hl : linked o st sb with
   | none => simp [load, hl] at h
   | some l =>
     obtain ⟨s⟩ := Pass08.lifecycle_order_load o st sb l hl
     obtain ⟨h1, x, _, hx, h2⟩ := s.err es h
-    refine ⟨h1, x, s.done.flatMap (fun x => [flowEv st x .init, Event.load x.id, flowEv st x .begin]), hx, ?_⟩
-    rcases h2 with ⟨t, e⟩ | ⟨t, e1, e2⟩
-    · left; rw [s.state, t]; exact ⟨rfl, e⟩
-    · right; rw [s.state, t]; exact ⟨rfl, e1, e2⟩
+    exact ⟨h1, x, _, s.tail, hx, by rw [s.state], h2⟩
 
 theorem Pass08.error_aborts_unload (o : Ord) (st : State) (sb : Sym) (es : List Nat)
     (h : (unload o st sb).2 = .err es) :
-    es ≠ [] ∧ ∃ x pre, isActivated o st x = some true ∧
-      (((unload o st sb).1.log = st.log ++ pre ++ [flowEv st x .term] ∧ flowErrs st x .term = es) ∨
-       ((unload o st sb).1.log = st.log ++ pre ++ deactBlock st x ∧ flowErrs st x .term = [] ∧
-          flowErrs st x .final = es)) := by
+    es ≠ [] ∧ ∃ x pre tail, isActivated o st x = some true ∧
+      (unload o st sb).1.log = st.log ++ pre ++ tail ∧ AbortTail st x .term .final Event.unload tail es := by
   cases hl : linked o st sb with
   | none => simp [unload, hl] at h
   | some l =>
     obtain ⟨s⟩ := Pass08.lifecycle_order_unload o st sb l hl
     obtain ⟨h1, x, _, hx, h2⟩ := s.err es h
-    refine ⟨h1, x, s.done.flatMap (fun x => [flowEv st x .term, Event.unload x.id, flowEv st x .final]), hx, ?_⟩
-    rcases h2 with ⟨t, e⟩ | ⟨t, e1, e2⟩
-    · left; rw [s.state, t]; exact ⟨rfl, e⟩
-    · right; rw [s.state, t]; exact ⟨rfl, e1, e2⟩
+    exact ⟨h1, x, _, s.tail, hx, by rw [s.state], h2⟩
 
 /-- `unload` changes nothing but the log. -/
 theorem Uniflow.Table.unload_table (o : Ord) (st : State) (sb : Sym) :
